@@ -12,6 +12,7 @@ from __future__ import annotations
 
 import io
 import json
+import os
 import re
 from html.parser import HTMLParser
 
@@ -438,8 +439,61 @@ def eval_gfm(ctx, case):
     return True
 
 
+def eval_sphinx_seq(ctx, case):
+    """Sphinx front end, the project enables html_image / html_admonition: every <img> / admonition div of a page gives the nodes of the directive spelling -
+    also AFTER a figure-md directive (which switches html_image on for its own body only) and in a page read after such a page."""
+    from docutils import nodes
+
+    n = case["n"]
+    imgs = [f'<img src="s{n}a.png" alt="before {n}">', f'<img src="s{n}b.png" alt="after figure" width="{10 + n}px">', f'<img src="s{n}c.png" alt="inline" class="c{n}">', f'<img src="s{n}d.png" alt="later page">']
+    dirs = [["```{image} " + f"s{n}a.png", f":alt: before {n}", "```"], ["```{image} " + f"s{n}b.png", ":alt: after figure", f":width: {10 + n}px", "```"], ["```{image} " + f"s{n}c.png", ":alt: inline", f":class: c{n}", "```"],
+            ["```{image} " + f"s{n}d.png", ":alt: later page", "```"]]
+    fig = ["```{figure-md} fig-" + str(n), f'<img src="f{n}.png" alt="fig">', "", "caption", "```"] if case["figure"] else ["plain paragraph instead of a figure"]
+    adm = ['<div class="admonition note" name="adm-seq">', '<p class="title">T</p>', "<p>inner *md*</p>", "</div>"]
+    a = "\n".join(["# A", "", imgs[0], ""] + fig + ["", imgs[1], "", "para with " + imgs[2] + " inline", ""] + adm + [""])
+    files = {"index.md": "# I\n\n```{toctree}\na_first\nb_second\nc_dirs\n```\n", "a_first.md": a, "b_second.md": "# B\n\n" + imgs[3] + "\n",
+             "c_dirs.md": "# C\n\n" + "\n\n".join("\n".join(d) for d in dirs) + "\n\n````{admonition} T\n:class: note\n:name: adm-seq-d\n\ninner *md*\n````\n"}
+    b = drive.SphinxBuild(files, conf={"myst_enable_extensions": ["html_image", "html_admonition", "colon_fence"]}, builder="dummy")
+    try:
+        try:
+            b.build()
+        except Exception as e:  # noqa: BLE001
+            sig = core.exc_signature(e)
+            ctx.violation(f"sphinx-seq:raises:{sig['type']}", f"the build raised {sig['type']}: {sig['msg'][:200]}", case, sig)
+            return True
+
+        def images(doc, skip_figures=True):
+            out = []
+            for im in doc.findall(nodes.image):
+                p, in_fig = im.parent, False
+                while p is not None:
+                    in_fig = in_fig or isinstance(p, nodes.figure)
+                    p = p.parent
+                if not in_fig:
+                    q = im.deepcopy()
+                    drive.mask_lines(q)
+                    for k in ("candidates", "uri"):
+                        q.attributes.pop(k, None)
+                    out.append((os.path.basename(im.get("uri", "")), q.pformat()))
+            return out
+
+        got = images(b.doctree("a_first")) + images(b.doctree("b_second"))
+        exp = images(b.doctree("c_dirs"))
+        raws = [r.astext()[:60] for dn in ("a_first", "b_second") for r in b.doctree(dn).findall(nodes.raw)]
+        ctx.count("sphinx_sequences")
+        if got != exp:
+            ctx.violation("sphinx-seq:img-not-converted-like-directive" + (":after-figure-md" if case["figure"] else ""), f"with html_image enabled for the project, the <img> elements of the pages give {len(got)} image nodes "
+                          f"{[g[0] for g in got]}, the directive spellings {len(exp)} {[e[0] for e in exp]}; raw html left: {raws[:3]}", case, {"files": files, "got": got, "expected": exp})
+        adm_html = [x for x in b.doctree("a_first").findall(nodes.admonition)]
+        if len(adm_html) != 1:
+            ctx.violation("sphinx-seq:admonition-not-converted", f"{len(adm_html)} admonition nodes from the html admonition (after figure-md={case['figure']})", case, {"files": files})
+    finally:
+        b.close()
+    return True
+
+
 def eval_case(ctx, case):
-    return {"pass": eval_pass, "img": eval_img, "adm": eval_adm, "gfm": eval_gfm}[case["kind"]](ctx, case)
+    return {"pass": eval_pass, "img": eval_img, "adm": eval_adm, "gfm": eval_gfm, "sphinx_seq": eval_sphinx_seq}[case["kind"]](ctx, case)
 
 
 # ------------------------------------------------------------------------------------------- workload
@@ -516,6 +570,10 @@ def run_shard(ctx):
         n += 1
     ctx.subrun("gfm_tag_matrix", exhaustive=True, documents=len(G) if ctx.shard == 0 else 0, cases=n)
     ctx.sample({"kind": "gfm", "text": G[ctx.shard]})
+    for i in range(2 if quick else 60):
+        case = {"kind": "sphinx_seq", "n": ctx.shard * 100 + i, "figure": i % 2 == 0}
+        eval_case(ctx, case)
+        ctx.case(repr(case), True)
     nr = 1500 if quick else 60000
     for i in range(nr):
         k = i % 3
@@ -540,7 +598,8 @@ def run_shard(ctx):
 
 def finalize(m, tier):
     c = m["counters"]
-    for k, lo in (("passthrough_configs_compared", 8000), ("html_tokens_seen", 10000), ("img_pairs_compared", 3000), ("admonition_pairs_compared", 3000), ("gfm_docs", 2000), ("gfm_raw_nodes_clean", 2000), ("gfm_docs_with_disallowed_tag_in_source", 1500)):
+    for k, lo in (("passthrough_configs_compared", 3000), ("html_tokens_seen", 4000), ("img_pairs_compared", 1200), ("admonition_pairs_compared", 1200), ("gfm_docs", 2000), ("gfm_raw_nodes_clean", 2000), ("gfm_docs_with_disallowed_tag_in_source", 1500),
+                  ("sphinx_sequences", 8)):
         if c.get(k, 0) < lo:
             m["inconclusive"].append(f"monitor observed only {c.get(k, 0)} '{k}' events (< {lo})")
     if c.get("img_pairs_both_rejected", 0) > 0.5 * max(1, c.get("img_pairs_compared", 0)):
